@@ -10,7 +10,8 @@ from vlib.monitors import contracts
 
 UPPER = ["ALPHA", "BRAVO", "CARGO", "DELTA", "EMBER", "FLINT", "GAMMA", "HARBOR", "IRIS", "JADE", "KITE", "LUMEN", "METRO", "NOVA", "ORBIT",
          "PIXEL", "QUARTZ", "RIDGE", "SOLAR", "TANGO", "UMBRA", "VECTOR", "WAVE", "XENON", "YARD", "ZEPHYR"]
-STRING_ALPHABET = list("abcXYZ019 _-+*/=<>()[]{}.,:;!@#$%^&|~`") + ["'", '"', "\\", "\n", "\t", "\r", "é", "ß", "中", "文", "😀", " ", "%d", "%s", "//", "/*", "*/"]
+STRING_ALPHABET = list("abcXYZ019 _-+*/=<>()[]{}.,:;!@#$%^&|~`") + ["'", '"', "\\", "\n", "\t", "\r", "é", "ß", "中", "文", "😀", " ", "%d", "%s", "//", "/*", "*/",
+                                                                     "?", "?", "??!", "??/", "??=", "??(", "???", "\x00", "\x01", "\x7f", "\x1b"]
 
 
 class Node:
@@ -28,6 +29,9 @@ def gen_expr(rng, consts, depth, stats):
             stats["refs"] += 1
             return Node(name, v, 3)
         v = rng.choice([0, 1, 2, 3, 7, 8, 10, 16, 255, 256, 1000, 65535, rng.randint(0, 99), rng.randint(0, 1 << 20), rng.randint(0, 1 << 40)])
+        if rng.random() < 0.04:
+            v = rng.choice([(1 << 63) - 1, 1 << 63, (1 << 64) - 1, 1 << 64, (1 << 70) + 5])  # masks and limits: around the targets' widest integer types
+            stats["literal_around_2^64"] += 1
         if r < 0.6:
             stats["hex"] += 1
             return Node(rng.choice([hex(v), "0x" + format(v, "X"), "0x00" + format(v, "x")]), v, 3)
@@ -66,7 +70,7 @@ def gen_expr(rng, consts, depth, stats):
 def gen_string(rng):
     n = rng.choice([0, 1, 2, 5, 9, 20])
     s = "".join(rng.choice(STRING_ALPHABET) for _ in range(n))
-    return s.replace("??", "?")
+    return s
 
 
 def c_program(header, names):
@@ -75,7 +79,7 @@ def c_program(header, names):
         if isinstance(v, bool):
             lines.append(f'    printf("{name} b %d\\n", (int)({name}));')
         elif isinstance(v, int):
-            lines.append(f'    printf("{name} i %lld\\n", (long long)({name}));')
+            lines.append(f'    printf("{name} i %llu\\n", (unsigned long long)({name}));' if v >= (1 << 63) else f'    printf("{name} i %lld\\n", (long long)({name}));')
         else:
             lines.append(f'    {{ const char *s = {name}; size_t n = sizeof({name}) - 1; printf("{name} s "); for (size_t k = 0; k < n; k++) printf("%02x", (unsigned char)s[k]); printf(".\\n"); }}')
     lines.append("    return 0; }")
@@ -150,6 +154,10 @@ def worker(ctx):
                         stats["string_escape:" + repr(ch)] += 1
                 if any(ord(c) > 127 for c in v):
                     stats["string_non_ascii"] += 1
+                if "??" in v:
+                    stats["string_trigraph"] += 1
+                if "\x00" in v:
+                    stats["string_nul"] += 1
             consts.append((nm, v))
             visible.append((nm, v))
         # capacities and an option taken from constants
@@ -204,8 +212,8 @@ def worker(ctx):
                 if ov != opt[1]:
                     res.violation("const-option", f"option max_bytes = {opt[0]} is {opt[1]}, compiler says {ov}", wit)
             # ---- (2) emission ------------------------------------------------------------
-            judged = [(n, v) for n, v in consts if not (isinstance(v, int) and not isinstance(v, bool) and not (-(1 << 63) <= v < (1 << 63)))]
-            res.count("constants_outside_int64_not_judged_for_emission", len(consts) - len(judged))
+            judged = list(consts)
+            is_int = lambda v: isinstance(v, int) and not isinstance(v, bool)
             try:
                 with sut_compiler.quiet_stderr():
                     if with_import:
@@ -265,13 +273,20 @@ def worker(ctx):
                 res.count("go_literals_compared")
                 if not ok:
                     res.violation("const-go-literal", f"{n}: declared {v!r}, Go output has `{typ} = {lit[:80]}`", {**wit, "constant": n})
+                elif is_int(v) and typ == "int" and not (-(1 << 63) <= v < (1 << 63)):
+                    # the digits are right, the declaration is not: a typed `int` constant cannot hold the value (Go: "constant overflows int")
+                    res.violation("const-go-literal:overflows-int", f"{n} = {v}: Go output declares `const {n} int = {lit[:40]}`, which overflows int", {**wit, "constant": n})
             # C: compiled and printed
             if case_id % c_every == 0 and judged:
+                for n, v in judged:
+                    if is_int(v) and not (-(1 << 63) <= v < (1 << 64)):
+                        res.violation("const-c-literal:exceeds-64-bits", f"{n} = {v}: emitted as a plain `#define`, no C integer type holds the value", {**wit, "constant": n})
+                judged = [(n, v) for n, v in judged if not (is_int(v) and not (-(1 << 63) <= v < (1 << 64)))]
                 src = os.path.join(d, "cprint.c")
                 with open(src, "w") as fh:
                     fh.write(c_program("constmain_bp.h", judged))
                 exe = os.path.join(d, "cprint")
-                p = subprocess.run(["gcc", "-std=gnu99", "-w", "-I", d, "-I", env.CLIB_DIR, src, "-o", exe], capture_output=True, text=True)
+                p = subprocess.run(["gcc", "-std=c99", "-w", "-I", d, "-I", env.CLIB_DIR, src, "-o", exe], capture_output=True, text=True)
                 if p.returncode != 0:
                     res.violation("const-c-compile", f"C program using the emitted constants does not compile: {p.stderr[:300]}", wit)
                     continue
@@ -307,9 +322,9 @@ if __name__ == "__main__":
               "references, strings over the lexer's alphabet with every supported escape and non-ASCII text; capacities and max_bytes taken from "
               "constants; judged: value in the parsed schema, capacity/option value, Python module attribute, Go literal decoded by Go's lexical "
               "rules, and (every third case) a compiled C program printing every macro"),
-        assumptions=["own evaluator (ordinary arithmetic) is the specification", "integer emission judged for values in [-2^63, 2^63)",
+        assumptions=["own evaluator (ordinary arithmetic) is the specification", "C programs are built with -std=c99 (trigraphs on)",
                      "Go string literals are decoded by vlib/sut_gotext.py, not by Go"],
         required_counters=["parsed_constants_compared", "capacities_compared", "option_values_compared", "python_literals_compared", "go_literals_compared",
                            "c_literals_compared", "gen:ops:-", "gen:ops:/", "gen:ops:*", "gen:left_assoc_chains", "gen:hex", "gen:refs", "gen:strings",
-                           "gen:string_escape:'\"'", "gen:string_escape:'\\\\'", "gen:string_escape:'\\n'", "gen:string_non_ascii"],
+                           "gen:string_escape:'\"'", "gen:string_escape:'\\\\'", "gen:string_escape:'\\n'", "gen:string_non_ascii", "gen:string_trigraph", "gen:string_nul"],
     )
